@@ -1,13 +1,17 @@
 /-
 Contracts.WriterExt — closes finding 3 of lean/AUDIT.md (property C09):
 
-(a) the float law V5 as a Lean hypothesis `FloatLawful env` (satisfiable: `floatLawful_satisfiable`) and the
-    coordinates clause "coordinates to six decimals" at the level of the graph read back (`C09_coords`);
-(b) the writer's side conditions `NodeRT` / `EdgeRT` / plain values discharged for every graph the TUCAN parser
-    returns (`parsed_nodeRT`, `parsed_edgeRT`, `parsed_plainValues`), and the string round trip restated with
-    dependency contracts, canonical-output and size hypotheses only (`C09_string'`);
-(c) a format-level well-formedness predicate `WellFormedV3000`, written from the CTfile rules, of the lines of the
-    writer's output (`written_wellformed`).
+(a) the float law V5 as a Lean hypothesis `FloatLawful env` (satisfiable: `floatLawful_satisfiable`, model `floatEnv`)
+    and the clause "coordinates to six decimals" for the graph that `graph_from_molfile_text` returns (`C09_coords`,
+    which also states same atoms / same order / element / charge / radical / mass / adjacency at the graph level);
+(b) the writer's side conditions `NodeRT` / `EdgeRT` / plain values derived from the float law and the property's
+    ranges (`InRange`, `nodeRT_of_inRange`, `plain_logicalLines'`), discharged for every graph the TUCAN parser
+    returns (`parsed_noBondData`, `parsed_bare`, `parsed_inRange`, `parsed_nodeRT_edgeRT`); `Final.C09_tucan` /
+    `Final.C09_string` restated without them (`C09_tucan'`, `C09_string'`: dependency contracts, canonical pipeline
+    output, size and fuel bounds only);
+(c) a format-level well-formedness predicate `WellFormedV3000` of a list of lines, written from the CTfile rules,
+    and `written_wellformed` (+ `_of_inRange`, `_parsed`): the lines of the writer's output satisfy it.
+Non-vacuity: `C09_coords_witness`, `written_wellformed_witness` (a carbon atom with coordinates, `floatEnv`).
 -/
 import Contracts.Writer
 import Contracts.Final
@@ -77,9 +81,12 @@ theorem FloatLawful.finite_zero {env : DepEnv} (h : FloatLawful env) : Finite en
 
 open Classical in
 /-- a model of the float operations: a float is the text it was read from; a float whose text is a six-decimal
-numeral prints as that text, any other float is not finite and prints `nan`; an integer prints with six zeros -/
+numeral prints as that text, any other float is not finite and prints `nan`; an integer prints with six zeros
+(time stamp and version string as the writer expects them) -/
 noncomputable def floatEnv : DepEnv :=
   { BlissModel.env with
+    nowStamp := py!"0928261200"
+    version := py!"1.0.0"
     parseFloat := fun s => .ok ⟨s⟩
     fmt6 := fun v => match v with
       | .sc (.flt f) => if Dec6 f.tok then f.tok else py!"nan"
@@ -167,7 +174,8 @@ theorem plain_atomLogical' (env : DepEnv) (p : Int × Attrs) (hx : Plain (env.fm
     hz) h0) h1) h2) h3
 
 /-- no logical line of the connection table contains a line-break character -/
-theorem plain_logicalLines' {env : DepEnv} {g : Graph} (hn : ∀ p ∈ g.nodesData, NodeRT env p)
+theorem plain_logicalLines' {env : DepEnv} {g : Graph}
+    (hn : ∀ p ∈ g.nodesData, ∃ s, p.2.get? "element_symbol" = some (Val.str s) ∧ s ∈ Tucan.Consts.ELEMENT_ATTRS.keys)
     (hc : ∀ p ∈ g.nodesData, ∀ k ∈ coordKeys, Finite env (coord p.2 k)) (he : ∀ e ∈ g.edgesData, EdgeRT e) :
     ∀ l ∈ logicalLines env g, Plain l := by
   intro l hl
@@ -179,7 +187,7 @@ theorem plain_logicalLines' {env : DepEnv} {g : Graph} (hn : ∀ p ∈ g.nodesDa
   · decide
   · simp only [atomLines, List.mem_map] at hl
     obtain ⟨p, hp, rfl⟩ := hl
-    obtain ⟨s, hs, hel⟩ := (hn p hp).sym
+    obtain ⟨s, hs, hel⟩ := hn p hp
     have hso : symbolOf p.2 = s := by simp [symbolOf, hs, pyStr]
     exact plain_atomLogical' env p (hc p hp _ (by decide)).plain (hc p hp _ (by decide)).plain
       (hc p hp _ (by decide)).plain (by rw [hso]; exact elements_plain s hel)
@@ -300,7 +308,7 @@ theorem C09_coords {envw : DepEnv} (hfl : FloatLawful envw) {g : Graph} (ok : Id
       (∀ u ∈ g.nodeList, ∀ v ∈ g.nodeList,
         posOf g.nodeList v ∈ g₂.nbrs (posOf g.nodeList u) ↔ v ∈ g.nbrs u) := by
   have hn := nodeRT_of_inRange hfl ok hr
-  have hpl := plain_logicalLines' hn hr.coords hr.bond
+  have hpl := plain_logicalLines' (fun p hp => (hn p hp).sym) hr.coords hr.bond
   obtain ⟨g₂, w, r, wg₂, _, ng, hnode, iso⟩ := writeRead_core ok hl hrad hn hr.bond hr.na hr.nb
     (splitlines_written hv hsP hpl).1 wfuel rfuel hf hf'
   refine ⟨_, g₂, w, r, ng, ?_, ?_⟩
@@ -346,7 +354,7 @@ theorem C09_tucan' {env₁ env₂ : DepEnv} (envw : DepEnv) (hs₁ : env₁.SetL
       Tucan.molfile_reader.graph_from_molfile_text envw rfuel text = .ok g₂ ∧ fuelBound g₂ = fuelBound g ∧
       ∀ fuel ≥ fuelBound g, ∀ fuel' ≥ fuelBound g, ∃ s, tucan env₁ fuel g = .ok s ∧ tucan env₂ fuel' g₂ = .ok s := by
   have hn := nodeRT_of_inRange hfl ok hr
-  have hpl := plain_logicalLines' hn hr.coords hr.bond
+  have hpl := plain_logicalLines' (fun p hp => (hn p hp).sym) hr.coords hr.bond
   obtain ⟨g₂, w, r, wg₂, cg₂, _, _, iso⟩ := writeRead_core ok hl hrad hn hr.bond hr.na hr.nb
     (splitlines_written hv hsP hpl).1 wfuel rfuel hf hf'
   have hiso := Contracts.Final.isIsoOn_code iso ok.code cg₂
@@ -555,7 +563,7 @@ theorem parsed_nodeRT_edgeRT {envw : DepEnv} (hfl : FloatLawful envw) (envp : De
     (∀ p ∈ g.nodesData, NodeRT envw p) ∧ (∀ e ∈ g.edgesData, EdgeRT e) ∧ (∀ l ∈ logicalLines envw g, Plain l) := by
   obtain ⟨ok, _, hr⟩ := parsed_inRange hfl envp ha hsm hg hnb
   have hn := nodeRT_of_inRange hfl ok hr
-  exact ⟨hn, hr.bond, plain_logicalLines' hn hr.coords hr.bond⟩
+  exact ⟨hn, hr.bond, plain_logicalLines' (fun p hp => (hn p hp).sym) hr.coords hr.bond⟩
 
 
 /-! ## 5. the string round trip -/
@@ -601,5 +609,308 @@ theorem C09_string' (antlr : Str → Option PTree) (hV4 : V4 antlr) {env env₂ 
   cases e1
   exact e2
 
+
+/-! ## 6. "a well-formed V3000 file": a format-level predicate, written from the CTfile rules -/
+
+/-- **continuation rule.** The physical lines `ps` carry the logical line `l` (the text after `M  V30 `): `l` is cut
+into pieces at arbitrary points, every piece is prefixed with `M  V30 `, every piece but the last is followed by the
+continuation dash `-`; no physical line has more than 80 characters including its newline; `l` itself does not end in
+a dash (so the end of the logical line is unambiguous). -/
+def Carry (l : Str) (ps : List Str) : Prop :=
+  ∃ pieces : List Str, pieces ≠ [] ∧ pieces.flatten = l ∧ ps = phys pieces ∧ (∀ p ∈ ps, p.length + 1 ≤ 80) ∧
+    l.getLast? ≠ some '-'
+
+/-- an optional atom property the writer may emit: `CHG=c` (`0 < |c| ≤ 15`), `RAD=r` (`1 ≤ r ≤ 3`), `MASS=m` (`m > 0`) -/
+def AtomProp (t : Str) : Prop :=
+  (∃ c : Int, (c ≠ 0 ∧ -15 ≤ c ∧ c ≤ 15) ∧ t = py!"CHG=" ++ pyStrInt c) ∨
+  (∃ r : Int, (1 ≤ r ∧ r ≤ 3) ∧ t = py!"RAD=" ++ pyStrInt r) ∨
+  (∃ m : Int, 0 < m ∧ t = py!"MASS=" ++ pyStrInt m)
+
+/-- atom line `index type x y z aamap [CHG=] [RAD=] [MASS=]`: blank-separated fields, positive index, a non-empty
+atom type without blank or `=`, three decimal coordinates, atom-atom mapping `0`, optional properties -/
+def AtomLineWF (idx : Int) (l : Str) : Prop :=
+  ∃ (sym x y z : Str) (props : List Str),
+    l = join py!" " ([pyStrInt idx, sym, x, y, z, py!"0"] ++ props) ∧ 1 ≤ idx ∧ CleanTok sym ∧
+      Dec6 x ∧ Dec6 y ∧ Dec6 z ∧ ∀ t ∈ props, AtomProp t
+
+/-- bond line `index type atom1 atom2`: the `k`-th bond line has index `k`, an integer type, and two indices of atom
+lines of the file -/
+def BondLineWF (atomIdx : List Int) (k : Int) (l : Str) : Prop :=
+  ∃ t a1 a2 : Int, l = join py!" " [pyStrInt k, pyStrInt t, pyStrInt a1, pyStrInt a2] ∧ a1 ∈ atomIdx ∧ a2 ∈ atomIdx
+
+/-- the logical lines of a connection table with the given atom and bond lines; the bond block is omitted when
+there are no bonds -/
+def ctabLogical (atoms bonds : List Str) : List Str :=
+  [py!"BEGIN CTAB", countsLine atoms.length bonds.length, py!"BEGIN ATOM"] ++ atoms ++ [py!"END ATOM"] ++
+    (if bonds = [] then [] else [py!"BEGIN BOND"] ++ bonds ++ [py!"END BOND"]) ++ [py!"END CTAB"]
+
+/-- **a well-formed V3000 molfile** (as a list of lines): three header lines (molecule name; two blanks, an
+eight-character program name, a ten-character time stamp, the dimension code; comment), the V3000 counts line
+`  0  0  0     0  0            999 V3000`, the connection table `BEGIN CTAB` / `COUNTS na nb 0 0 0` / `BEGIN ATOM` /
+`na` atom lines / `END ATOM` / optionally `BEGIN BOND` / `nb` bond lines / `END BOND` / `END CTAB`, every logical line
+carried by `M  V30 ` lines under the continuation rule, and `M  END`; no line exceeds 80 characters including the
+newline or contains a line-break character; atom indices are positive and pairwise different; bond lines are
+numbered `1 … nb` and refer to atom indices of the file. -/
+def WellFormedV3000 (ls : List Str) : Prop :=
+  ∃ (name pn ts comment : Str) (atoms : List (Int × Str)) (bonds : List Str) (ph : List (List Str)),
+    ls = [name, py!"  " ++ pn ++ ts ++ py!"3D", comment, py!"  0  0  0     0  0            999 V3000"] ++ ph.flatten ++
+      [py!"M  END"] ∧
+    pn.length = 8 ∧ ts.length = 10 ∧
+    List.Forall₂ Carry (ctabLogical (atoms.map Prod.snd) bonds) ph ∧
+    (∀ l ∈ ls, l.length + 1 ≤ 80 ∧ Plain l) ∧
+    (∀ p ∈ atoms, AtomLineWF p.1 p.2) ∧ (atoms.map Prod.fst).Nodup ∧
+    (∀ (k : Nat) b, bonds[k]? = some b → BondLineWF (atoms.map Prod.fst) ((k : Int) + 1) b)
+
+theorem carry_wrap (l : Str) (h : l.getLast? ≠ some '-') : Carry l (wrap l) := by
+  obtain ⟨pieces, hne, hfl, hw, _⟩ := wrap_eq_phys l
+  exact ⟨pieces, hne, hfl, hw, fun p hp => by have := wrap_length_le l p hp; omega, h⟩
+
+theorem mem_optTok' (key : Str) (o : Option Int) (P : Int → Prop) [DecidablePred P] (t : Str) (h : t ∈ optTok key o P) :
+    ∃ c, P c ∧ t = key ++ pyStrInt c := by
+  cases o with
+  | none => simp [optTok] at h
+  | some c =>
+    by_cases hp : P c
+    · simp only [optTok, hp, if_true, List.mem_singleton] at h; exact ⟨c, hp, h⟩
+    · simp [optTok, hp] at h
+
+theorem atomLineWF_atomLogical {env : DepEnv} (p : Int × Attrs) (hpos : 0 ≤ p.1) (hsym : CleanTok (symbolOf p.2))
+    (hc : ∀ k ∈ coordKeys, Finite env (coord p.2 k)) : AtomLineWF (p.1 + 1) (atomLogical env p) := by
+  refine ⟨symbolOf p.2, _, _, _,
+    optTok py!"CHG=" (intAttr p.2 "chg") (fun c => c ≠ 0 ∧ -15 ≤ c ∧ c ≤ 15) ++
+    (optTok py!"RAD=" (intAttr p.2 "rad") (fun c => 1 ≤ c ∧ c ≤ 3) ++
+     optTok py!"MASS=" (intAttr p.2 "mass") (fun c => 0 < c)), ?_, by omega, hsym,
+    hc "x_coord" (by decide), hc "y_coord" (by decide), hc "z_coord" (by decide), ?_⟩
+  · rw [atomLogical_eq_join]; simp [atomFields, List.append_assoc]
+  · intro t ht
+    simp only [List.mem_append] at ht
+    rcases ht with ht | ht | ht
+    · exact Or.inl (mem_optTok' _ _ _ t ht)
+    · exact Or.inr (Or.inl (mem_optTok' _ _ _ t ht))
+    · exact Or.inr (Or.inr (mem_optTok' _ _ _ t ht))
+
+theorem numbered_getElem? {α} (l : List α) (k : Nat) : (numbered l)[k]? = (l[k]?).map (fun a => ((k : Int) + 1, a)) := by
+  simp only [numbered, List.getElem?_map, List.getElem?_zipIdx]
+  cases l[k]? <;> simp
+
+
+/-- **C09, "a well-formed V3000 file".** `g`: a well-formed graph whose nodes have non-negative labels and carry an
+element symbol of the element table (and an integer `mass` if any), with finite coordinates and integer bond types;
+the time stamp has its ten characters, version and time stamp contain no line break; the environment obeys the float
+law. Then the writer returns a text whose lines — for `splitlines()` and for `split("\n")` alike — form a
+well-formed V3000 molfile. -/
+theorem written_wellformed {env : DepEnv} {g : Graph} (hg : g.WF)
+    (hok : ∀ p ∈ g.nodesData, NodeOk p.2)
+    (hsym : ∀ p ∈ g.nodesData, ∃ s, p.2.get? "element_symbol" = some (Val.str s) ∧ s ∈ Tucan.Consts.ELEMENT_ATTRS.keys)
+    (hc : ∀ p ∈ g.nodesData, ∀ k ∈ coordKeys, Finite env (coord p.2 k)) (he : ∀ e ∈ g.edgesData, EdgeRT e)
+    (hlab : ∀ n ∈ g.nodeList, 0 ≤ n)
+    (hstamp : env.nowStamp.length = 10) (hv : Plain env.version) (hs : Plain env.nowStamp)
+    (fuel : Nat) (hf : maxLen (logicalLines env g) / 71 + 1 ≤ fuel) :
+    ∃ text, Tucan.molfile_writer.graph_to_molfile env fuel g false = .ok text ∧
+      WellFormedV3000 (splitlines text) ∧ split text py!"\n" = splitlines text := by
+  have hpl := plain_logicalLines' hsym hc he
+  obtain ⟨hsl, hsp⟩ := splitlines_written hv hs hpl
+  refine ⟨_, graph_to_molfile_ok env fuel g hok hf, ?_, by rw [hsl, hsp]⟩
+  rw [hsl]
+  have hgo := GraphOk.of_WF hg
+  have hkeys : g.nodesData.map Prod.fst = g.nodeList := rfl
+  refine ⟨[], progName env, env.nowStamp, [], g.nodesData.map (fun p => (p.1 + 1, atomLogical env p)), bondLines g,
+    (logicalLines env g).map wrap, ?_, length_progName env, hstamp, ?_, ?_, ?_, ?_, ?_⟩
+  · simp [fileLines, header, List.flatMap_def]
+  · have hl : ctabLogical ((g.nodesData.map (fun p => (p.1 + 1, atomLogical env p))).map Prod.snd) (bondLines g) =
+        logicalLines env g := by
+      have h1 : (g.nodesData.map (fun p => (p.1 + 1, atomLogical env p))).map Prod.snd = atomLines env g := by
+        simp [atomLines, List.map_map, Function.comp_def]
+      have h2 : (atomLines env g).length = g.nodesData.length := by simp [atomLines]
+      have h3 : (bondLines g).length = g.edgesData.length := by simp [bondLines, length_numbered]
+      have h4 : bondLines g = [] ↔ g.edgesData.length = 0 := by
+        rw [← h3]; exact List.length_eq_zero_iff.symm
+      unfold ctabLogical logicalLines bondBlock
+      rw [h1, h2, h3]
+      by_cases h0 : g.edgesData.length = 0
+      · rw [if_pos (h4.2 h0), if_pos h0]
+      · rw [if_neg (fun h => h0 (h4.1 h)), if_neg h0]
+    rw [hl]
+    have := forall₂_map_same Carry id wrap (logicalLines env g)
+      (fun l hl' => carry_wrap l (getLast?_logicalLines env g l hl'))
+    simpa using this
+  · intro l hl
+    have := C09_line_length env g hstamp l hl
+    exact ⟨by omega, plain_fileLines' hv hs hpl l hl⟩
+  · intro q hq
+    obtain ⟨p, hp, rfl⟩ := List.mem_map.1 hq
+    obtain ⟨_, hn, _⟩ := node_of_mem hg hp
+    obtain ⟨s, hs', hel⟩ := hsym p hp
+    obtain ⟨h1, h2, h3, _⟩ := elements_clean s hel
+    have hso : symbolOf p.2 = s := by simp [symbolOf, hs', pyStr]
+    exact atomLineWF_atomLogical p (hlab _ hn) (by rw [hso]; exact ⟨h1, h2, h3⟩) (hc p hp)
+  · have : (g.nodesData.map (fun p => (p.1 + 1, atomLogical env p))).map Prod.fst = g.nodeList.map (· + 1) := by
+      rw [← hkeys]; simp [List.map_map, Function.comp_def]
+    rw [this]
+    exact hg.nodup_nodeList.map (fun a b e => by simpa using e)
+  · intro k b hb
+    simp only [bondLines, List.getElem?_map, numbered_getElem?, Option.map_map, Option.map_eq_some_iff] at hb
+    obtain ⟨e, hek, rfl⟩ := hb
+    have hmem : e ∈ g.edgesData := List.mem_of_getElem? hek
+    obtain ⟨bt, hbt, _⟩ := he e hmem
+    obtain ⟨hu, hv'⟩ := hgo.ends e hmem
+    have hty : bondTypeOf e.2.2 = pyStrInt bt := by simp [bondTypeOf, hbt, pyStr]
+    have hidx : ∀ x, x ∈ g.nodesData.map Prod.fst →
+        x + 1 ∈ (g.nodesData.map (fun p => (p.1 + 1, atomLogical env p))).map Prod.fst := by
+      intro x hx
+      obtain ⟨p, hp, rfl⟩ := List.mem_map.1 hx
+      exact List.mem_map.2 ⟨_, List.mem_map.2 ⟨p, hp, rfl⟩, rfl⟩
+    refine ⟨bt, e.1 + 1, e.2.1 + 1, ?_, hidx _ hu, hidx _ hv'⟩
+    simp only [Function.comp_apply]
+    rw [bondLogical_eq_join, hty]
+
+/-- `written_wellformed` for a graph with the identity facts (parser / reader output) in the format's ranges -/
+theorem written_wellformed_of_inRange {env : DepEnv} (hfl : FloatLawful env) {g : Graph} (ok : IdOK g)
+    (hr : InRange env g) (hlab : ∀ n ∈ g.nodeList, 0 ≤ n)
+    (hstamp : env.nowStamp.length = 10) (hv : Plain env.version) (hs : Plain env.nowStamp)
+    (fuel : Nat) (hf : maxLen (logicalLines env g) / 71 + 1 ≤ fuel) :
+    ∃ text, Tucan.molfile_writer.graph_to_molfile env fuel g false = .ok text ∧
+      WellFormedV3000 (splitlines text) ∧ split text py!"\n" = splitlines text :=
+  written_wellformed ok.wf (Contracts.Final.nodeOk_of_idOK ok)
+    (fun p hp => (nodeRT_of_inRange hfl ok hr p hp).sym) hr.coords hr.bond hlab hstamp hv hs fuel hf
+
+
+/-- the parser's graphs: the file written for any graph the parser returns is a well-formed V3000 file -/
+theorem written_wellformed_parsed {envw : DepEnv} (hfl : FloatLawful envw) (envp : DepEnv) {a : Ast} (ha : a.Wf)
+    (hsm : (Contracts.Parser.expand a.formula).length < 10 ^ 4300) {g : Graph}
+    (hg : Tucan.parser.graph_from_tree envp (treeOf a) = .ok g) (hnb : g.edgesData.length < 10 ^ 4300)
+    (hstamp : envw.nowStamp.length = 10) (hv : Plain envw.version) (hs : Plain envw.nowStamp)
+    (fuel : Nat) (hf : maxLen (logicalLines envw g) / 71 + 1 ≤ fuel) :
+    ∃ text, Tucan.molfile_writer.graph_to_molfile envw fuel g false = .ok text ∧
+      WellFormedV3000 (splitlines text) ∧ split text py!"\n" = splitlines text := by
+  obtain ⟨ok, _, hr⟩ := parsed_inRange hfl envp ha hsm hg hnb
+  obtain ⟨⟨n, hn⟩, _, _⟩ := parsed_bare envp a ha hg
+  refine written_wellformed_of_inRange hfl ok hr ?_ hstamp hv hs fuel hf
+  intro i hi
+  rw [hn, Contracts.Parser.mem_range] at hi
+  exact hi.1
+
+/-! ## 7. non-vacuity: a carbon atom with coordinates, in the model `floatEnv` -/
+
+def exCattrs : Attrs :=
+  ⟨[("element_symbol", Val.str py!"C"), ("atomic_number", Val.int 6),
+    ("x_coord", Val.flt ⟨py!"1.250000"⟩), ("z_coord", Val.flt ⟨py!"-0.500000"⟩),
+    ("invariant_code", Val.tup [.int 6, .int 0, .int 0])]⟩
+
+/-- one carbon atom at `(1.25, 0 (absent), -0.5)` -/
+def exC : Graph := Graph.empty.addNode 0 exCattrs
+
+theorem exC_nodesData : exC.nodesData = [(0, exCattrs)] := by decide
+
+theorem exC_idOK : IdOK exC := by
+  have w : exC.WF := Graph.WF_addNode Graph.WF_empty 0 (by unfold Dict.WF Dict.keys; decide)
+  have hn : exC.nodeList = [0] := by decide
+  refine ⟨w, ?_, ?_, ?_, ?_⟩
+  · intro i hi
+    rw [hn] at hi; simp only [List.mem_singleton] at hi; subst hi
+    exact ⟨py!"C", by decide, by decide, by decide⟩
+  · intro i hi v hv
+    rw [hn] at hi; simp only [List.mem_singleton] at hi; subst hi
+    have : exC.attr 0 "mass" = none := by decide
+    rw [this] at hv; cases hv
+  · intro i hi v hv
+    rw [hn] at hi; simp only [List.mem_singleton] at hi; subst hi
+    have : exC.attr 0 "rad" = none := by decide
+    rw [this] at hv; cases hv
+  · intro i hi
+    rw [hn] at hi; simp only [List.mem_singleton] at hi; subst hi
+    decide
+
+open Classical in
+theorem exC_inRange : InRange floatEnv exC := by
+  have d1 : Dec6 py!"1.250000" := ⟨[], py!"1", py!"250000", rfl, Or.inl rfl, by decide, by decide, rfl, by decide⟩
+  have d2 : Dec6 py!"-0.500000" := ⟨py!"-", py!"0", py!"500000", rfl, Or.inr rfl, by decide, by decide, rfl, by decide⟩
+  have small : ∀ n : Nat, n < 100 → n < 10 ^ 4300 := fun n h =>
+    by exact_mod_cast Contracts.RoundTrip.small_lit n (by exact_mod_cast h)
+  refine ⟨?_, ?_, ?_, ?_, ?_, ?_⟩
+  · intro p hp k hk
+    rw [exC_nodesData] at hp
+    simp only [List.mem_singleton] at hp; subst hp
+    simp only [coordKeys, List.mem_cons, List.not_mem_nil, or_false] at hk
+    rcases hk with rfl | rfl | rfl
+    · show Dec6 (if Dec6 py!"1.250000" then py!"1.250000" else py!"nan")
+      rw [if_pos d1]; exact d1
+    · exact floatLawful_floatEnv.finite_zero
+    · show Dec6 (if Dec6 py!"-0.500000" then py!"-0.500000" else py!"nan")
+      rw [if_pos d2]; exact d2
+  · intro e he
+    have : exC.edgesData = [] := by decide
+    rw [this] at he; cases he
+  · intro n hn
+    have : exC.nodeList = [0] := by decide
+    rw [this] at hn; simp only [List.mem_singleton] at hn; subst hn
+    exact small _ (by decide)
+  · intro p hp m hm
+    rw [exC_nodesData] at hp
+    simp only [List.mem_singleton] at hp; subst hp
+    have : wMass exCattrs = none := by decide
+    rw [this] at hm; cases hm
+  · rw [exC_nodesData]; exact small _ (by decide)
+  · have : exC.edgesData = [] := by decide
+    rw [this]; exact small _ (by decide)
+
+/-- `C09_coords`, instance: its hypotheses can be met by a molecule with non-trivial coordinates; the graph read
+back has coordinates that print as `1.250000`, `0.000000`, `-0.500000` -/
+theorem C09_coords_witness :
+    ∃ text g₂, Tucan.molfile_writer.graph_to_molfile floatEnv (maxLen (logicalLines floatEnv exC) / 71 + 1) exC false = .ok text ∧
+      Tucan.molfile_reader.graph_from_molfile_text floatEnv ((fileLines floatEnv exC).length + 1) text = .ok g₂ ∧
+      g₂.nodeList = range 1 ∧
+      ∃ fx fy fz : Flt, g₂.attr 0 "x_coord" = some (Val.flt fx) ∧ g₂.attr 0 "y_coord" = some (Val.flt fy) ∧
+        g₂.attr 0 "z_coord" = some (Val.flt fz) ∧
+        floatEnv.fmt6 (Val.flt fx) = floatEnv.fmt6 (Val.flt ⟨py!"1.250000"⟩) ∧
+        floatEnv.fmt6 (Val.flt fy) = py!"0.000000" ∧
+        floatEnv.fmt6 (Val.flt fz) = floatEnv.fmt6 (Val.flt ⟨py!"-0.500000"⟩) := by
+  have hl : exC.Loopless := by
+    intro u hu
+    have : exC.nbrs u = [] := by
+      unfold Graph.nbrs exC Graph.addNode
+      simp [Graph.empty, Dict.get?, Dict.set, Dict.empty, Dict.contains]
+      simp only [List.lookup]
+      split <;> simp [Dict.keys]
+    rw [this] at hu; cases hu
+  have hrad : ∀ i ∈ exC.nodeList, ∀ r : Int, exC.attr i "rad" = some (Val.int r) → r ≤ 3 := by
+    intro i hi r hr
+    have hn : exC.nodeList = [0] := by decide
+    rw [hn] at hi; simp only [List.mem_singleton] at hi; subst hi
+    have : exC.attr 0 "rad" = none := by decide
+    rw [this] at hr; cases hr
+  obtain ⟨text, g₂, w, r, ng, hat, _⟩ := C09_coords floatLawful_floatEnv exC_idOK hl hrad exC_inRange
+    (by decide) (by decide) _ _ (le_refl _) (le_refl _)
+  have h0 : (0 : Int) ∈ exC.nodeList := by decide
+  obtain ⟨_, _, hco⟩ := hat 0 h0 exCattrs (by decide)
+  have hp : posOf exC.nodeList 0 = 0 := by decide
+  rw [hp] at hco
+  obtain ⟨fx, ex, hx⟩ := hco "x_coord" (by decide)
+  obtain ⟨fy, ey, hy⟩ := hco "y_coord" (by decide)
+  obtain ⟨fz, ez, hz⟩ := hco "z_coord" (by decide)
+  exact ⟨text, g₂, w, r, ng, fx, fy, fz, ex, ey, ez, hx, hy.trans floatLawful_floatEnv.zero, hz⟩
+
+/-- `written_wellformed`, instance -/
+theorem written_wellformed_witness :
+    ∃ text, Tucan.molfile_writer.graph_to_molfile floatEnv (maxLen (logicalLines floatEnv exC) / 71 + 1) exC false = .ok text ∧
+      WellFormedV3000 (splitlines text) ∧ split text py!"\n" = splitlines text :=
+  written_wellformed_of_inRange floatLawful_floatEnv exC_idOK exC_inRange
+    (by intro n hn; have : exC.nodeList = [0] := by decide
+        rw [this] at hn; simp only [List.mem_singleton] at hn; omega)
+    (by decide) (by decide) (by decide) _ (le_refl _)
+
+
+
+#print axioms floatLawful_satisfiable
+#print axioms C09_coords
+#print axioms C09_tucan'
+#print axioms parsed_noBondData
+#print axioms parsed_inRange
+#print axioms parsed_nodeRT_edgeRT
+#print axioms C09_string'
+#print axioms written_wellformed
+#print axioms written_wellformed_parsed
+#print axioms C09_coords_witness
+#print axioms written_wellformed_witness
 
 end Contracts.WriterExt
